@@ -23,6 +23,18 @@ def forward_matrix(f, base, scale=1.0):
     with torch.no_grad():
         outs = _flatlist(f(*ins))
     A = np.concatenate([o.reshape(P, -1).numpy() for o in outs], axis=1).T / scale
+    # a call on ONE input (batch of one) must reproduce its row of the batched extraction: data-dependent shortcuts that
+    # look at a whole tensor (an all-zero band treated as absent, .any(), .sum()) are invisible inside a batch
+    off = 0
+    for bi, m in enumerate(sizes):
+        for i in sorted({off, off + m - 1}):
+            one = [t[i:i + 1].clone() for t in ins]
+            with torch.no_grad():
+                o1 = _flatlist(f(*one))
+            a1 = np.concatenate([o.reshape(1, -1).numpy() for o in o1], axis=1)[0] / scale if o1 else np.zeros(0)
+            if a1.shape != A[:, i].shape or np.abs(a1 - A[:, i]).max() > 1e-12 * max(1.0, float(np.abs(A).max())):
+                raise AssertionError('a call with a batch of one (input %d of band %d alone) differs from the same input inside a batch' % (i - off, bi))
+        off += m
     return A, [tuple(o.shape[1:]) for o in outs]
 
 
@@ -84,7 +96,63 @@ def vjp_matrices(f, base, req, chunk=384):
     for i in range(len(base)):
         if missing[i]:
             G[i] = None
+    if not any(missing):
+        _extra_cotangents(f, base, req, osz, G, M)
     return G, M
+
+
+def _extra_cotangents(f, base, req, osz, G, M):
+    """The backward map is linear in the cotangent and acts per batch item: (1) cotangents whose entries cancel exactly
+    (e_i - e_j, a +-1 checkerboard per output band) must give the corresponding combinations of the extracted columns;
+    (2) one cotangent pulled back alone (batch of one) must reproduce its column."""
+    import torch
+    rows = []
+    off = 0
+    for m in osz:
+        if m >= 2:
+            v = np.zeros(M)
+            v[off] = 1.0
+            v[off + m - 1] = -1.0
+            rows.append(v)
+            c = np.zeros(M)
+            c[off:off + m] = (-1.0) ** np.arange(m)
+            if m % 2 == 0:
+                rows.append(c)
+        off += m
+    singles = sorted({0, M - 1} | {sum(osz[:k]) for k in range(len(osz))})
+    Gall = np.concatenate([g for g, rq in zip(G, req) if rq], axis=0)          # (sum P_i, M)
+    scale = max(1.0, float(np.abs(Gall).max()))
+
+    def pull(cvecs):
+        n = len(cvecs)
+        ins = []
+        for b, rq in zip(base, req):
+            t = b.repeat((n,) + (1,) * (b.dim() - 1)).clone()
+            t.requires_grad_(bool(rq))
+            ins.append(t)
+        outs = _flatlist(f(*ins))
+        cots = []
+        o0 = 0
+        for o, m in zip(outs, osz):
+            c = torch.zeros(o.shape, dtype=o.dtype)
+            c.reshape(n, -1)[:] = torch.as_tensor(np.stack([cv[o0:o0 + m] for cv in cvecs])).to(o.dtype)
+            o0 += m
+            cots.append(c)
+        live = [(o, c) for o, c in zip(outs, cots) if o.requires_grad]
+        gs = torch.autograd.grad([o for o, _ in live], [t for t, rq in zip(ins, req) if rq], grad_outputs=[c for _, c in live], allow_unused=True)
+        return np.concatenate([np.zeros((n, int(np.prod(b.shape[1:])))) if g is None else g.reshape(n, -1).numpy()
+                               for g, b in zip(gs, [b for b, rq in zip(base, req) if rq])], axis=1).T      # (sum P_i, n)
+    if rows:
+        got = pull(rows)
+        exp = Gall @ np.stack(rows).T
+        if np.abs(got - exp).max() > 1e-11 * scale * max(1, max(osz)):
+            raise AssertionError('back-propagation is not linear in the cotangent: a cotangent whose entries cancel (e_i - e_j / checkerboard) does not give the combination of the unit-cotangent gradients')
+    for r in singles:
+        v = np.zeros(M)
+        v[r] = 1.0
+        got = pull([v])
+        if np.abs(got[:, 0] - Gall[:, r]).max() > 1e-12 * scale:
+            raise AssertionError('a cotangent pulled back alone (batch of one, output element %d) differs from the same cotangent inside a batch' % r)
 
 
 def vjp_single(f, base, req, rows):
